@@ -377,6 +377,14 @@ def main(argv=None):
             out = tmp / f"part{s}.json"
             cmd = [sys.executable, "-m", "vf.core", prop, "--tier", args.tier, "--seed", str(args.seed), "--shard", f"{s}/{nworkers}", "--out", str(out)]
             procs.append((s, out, subprocess.Popen(cmd, cwd=str(VERIF), env=env, stdout=subprocess.PIPE, stderr=subprocess.STDOUT, text=True)))
+        passive = None
+        if hasattr(module, "passive") and (args.tier == "thorough" or os.environ.get("VF_PASSIVE") == "1"):
+            pout = tmp / "passive.json"
+            penv = dict(env, VF_PASSIVE_PROP=prop, VF_PASSIVE_OUT=str(pout), VERIF_SEED=str(args.seed), PYTHONPATH=str(VERIF))
+            repo = os.environ.get("VERIF_REPO", "/repo")
+            pcmd = [sys.executable, "-m", "pytest", "-q", "-x", "--no-header", "-p", "no:cacheprovider", "-p", "vf.pytest_plugin", "--timeout=900", "--continue-on-collection-errors", "tests"]
+            pcmd.remove("-x")
+            passive = (pout, subprocess.Popen(pcmd, cwd=repo, env=penv, stdout=subprocess.PIPE, stderr=subprocess.STDOUT, text=True))
         parts = []
         watchdog = getattr(module, "WATCHDOG", {"quick": 600, "thorough": 3600}).get(args.tier, 3600)
         for s, out, p in procs:
@@ -391,6 +399,17 @@ def main(argv=None):
                 reasons.append(f"worker {s} died (exit {p.returncode}): {stdout[-800:]}")
                 continue
             parts.append(json.loads(out.read_text()))
+        if passive is not None:
+            pout, pp = passive
+            try:
+                pstdout, _ = pp.communicate(timeout=max(1, watchdog - (time.time() - t0)))
+                if pout.exists():
+                    parts.append(json.loads(pout.read_text()))
+                else:
+                    reasons.append(f"passive run (repository test-suite under the monitors) produced no result: {pstdout[-600:]}")
+            except subprocess.TimeoutExpired:
+                pp.kill()
+                reasons.append("passive run (repository test-suite under the monitors) exceeded the watchdog")
         import shutil
 
         shutil.rmtree(tmp, ignore_errors=True)
